@@ -127,9 +127,20 @@ fn rec(ctx: &mut Ctx, t: &mut Tree, p: &Pos, b: &Board, path: &mut Vec<Mv>, spec
     for m in p.legal_moves() {
         let np = p.apply(m);
         let nb = b.make_move_new(bridge::mv(m));
+        // the in-place entry point is another way of reaching the same position
+        let mut nb2 = *t.buckets.values().next().map(|e| &e.board).unwrap_or(b);
+        b.make_move(bridge::mv(m), &mut nb2);
+        if nb2.get_hash() != nb.get_hash() || nb2 != nb || digest(&nb2) != digest(&nb) {
+            path.push(m);
+            let c = path_json(t.root, t.prefix, path);
+            path.pop();
+            ctx.fail("hash:make_move-vs-make_move_new", format!("after {}: make_move (in place) gives hash {:#018x}, make_move_new {:#018x}", m.uci(), nb2.get_hash(), nb.get_hash()), c)?;
+        }
         let sp = special || is_special_move(p, m);
         path.push(m);
-        rec(ctx, t, &np, &nb, path, sp, depth - 1)?;
+        // alternate the entry point used to advance, so that descendants inherit either
+        let adv = if path.len() % 2 == 0 { nb2 } else { nb };
+        rec(ctx, t, &np, &adv, path, sp, depth - 1)?;
         path.pop();
         if t.nodes >= t.cap {
             break;
@@ -220,7 +231,7 @@ pub fn run(cfg: &Cfg) -> i32 {
     engine::finish(
         report,
         EvidenceSpec {
-            rule: "cases = complete trees of legal moves (depth 2-5 by branching factor and material, node cap 150k-300k) below curated positions and below generated mid-game positions; every node's incrementally maintained hash is compared with the hash of the same position parsed from its own FEN, from an independent standard FEN and built through BoardBuilder, with null_move().null_move(), and with every other node of the tree that is the same position (bucket key computed by the reference model: placement, side, rights, en-passant state) in get_hash, == and std Hash digest. evaluations = tree nodes. Non-trivial = a position reached by >= 2 different move sequences, or by a path containing castling, en passant, promotion or capture of a rook at home; distinct = position fingerprints.".into(),
+            rule: "cases = complete trees of legal moves (depth 2-5 by branching factor and material, node cap 150k-300k) below curated positions and below generated mid-game positions; children are produced through make_move_new and through make_move into a used board (both must agree; the tree advances through them alternately); every node's incrementally maintained hash is compared with the hash of the same position parsed from its own FEN, from an independent standard FEN and built through BoardBuilder, with null_move().null_move(), and with every other node of the tree that is the same position (bucket key computed by the reference model: placement, side, rights, en-passant state) in get_hash, == and std Hash digest. evaluations = tree nodes. Non-trivial = a position reached by >= 2 different move sequences, or by a path containing castling, en passant, promotion or capture of a rook at home; distinct = position fingerprints.".into(),
             assumptions: vec!["reference position identity (placement, side, rights, en-passant state = enemy pawn beside the just-pushed pawn)".into()],
             trusted_base: vec!["harness/src/refmodel.rs".into(), "proptest 1.11".into()],
             exhaustive: None,
@@ -251,9 +262,15 @@ pub fn replay(ctx: &mut Ctx, case: &Value) -> Result<(), Violation> {
                 return Ok(());
             }
             special |= is_special_move(&p, *m);
-            b = b.make_move_new(bridge::mv(*m));
-            p = p.apply(*m);
+            let nb = b.make_move_new(bridge::mv(*m));
+            let mut nb2 = b;
+            b.make_move(bridge::mv(*m), &mut nb2);
             path.push(*m);
+            if nb2.get_hash() != nb.get_hash() || nb2 != nb {
+                return ctx.fail("hash:make_move-vs-make_move_new", format!("after {}: make_move (in place) gives hash {:#018x}, make_move_new {:#018x}", m.uci(), nb2.get_hash(), nb.get_hash()), path_json(&start, &[], &path));
+            }
+            b = nb;
+            p = p.apply(*m);
         }
         node(ctx, t, &p, &b, &path, special)
     };
